@@ -441,10 +441,12 @@ open Xp.Gen
 def claimFinalize (k : Key) (cm : Obj) : P :=
   if cm.fins.contains c08ClaimFinalizer then
     .call (.removeFin k cm.rv c08ClaimFinalizer) fun
-      | .obj cm' => statusThen k (cm'.cond "Synced" "Success") .ok
-      | .notFound => statusThen k (cm.cond "Synced" "Success") .ok
+      -- `cm.SetConditions(xpv1.Deleting(), xpv1.ReconcileSuccess())`: the Update replaced the
+      -- in-memory copy, Deleting is set again (fix f96c12b)
+      | .obj cm' => statusThen k ((cm'.cond "Ready" "Deleting").cond "Synced" "Success") .ok
+      | .notFound => statusThen k ((cm.cond "Ready" "Deleting").cond "Synced" "Success") .ok
       | r => statusThen k (cm.cond "Synced" ("err:removeFin:" ++ r.cls)) .requeue
-  else statusThen k (cm.cond "Synced" "Success") .ok
+  else statusThen k ((cm.cond "Ready" "Deleting").cond "Synced" "Success") .ok
 
 /-- claim: `if meta.WasDeleted(cm) { … }` -/
 def claimDeleted (k : Key) (cm : Obj) (xr : Option Obj) : P :=
@@ -490,11 +492,12 @@ def xrRec (n : String) : P :=
         let x := x.cond "Ready" "Deleting"
         if x.fins.contains c08XRFinalizer then
           .call (.removeFin k x.rv c08XRFinalizer) fun
-            | .obj x' => statusThen k (x'.cond "Synced" "Success") .ok
-            | .notFound => statusThen k (x.cond "Synced" "Success") .ok
+            -- `xr.SetConditions(xpv1.Deleting(), xpv1.ReconcileSuccess())` (fix f96c12b)
+            | .obj x' => statusThen k ((x'.cond "Ready" "Deleting").cond "Synced" "Success") .ok
+            | .notFound => statusThen k ((x.cond "Ready" "Deleting").cond "Synced" "Success") .ok
             | .conflict => .ret .requeue
             | r => statusThen k (x.cond "Synced" ("err:removeFin:" ++ r.cls)) .requeue
-        else statusThen k (x.cond "Synced" "Success") .ok
+        else statusThen k ((x.cond "Ready" "Deleting").cond "Synced" "Success") .ok
     | .notFound => .ret .ok
     | _ => .ret .err
 
